@@ -112,6 +112,18 @@ def shapes(tier, seed):
         S.append(SplitShape(f'split:{seed}:{i}', prog={'main.asm': prog}, files=files, include_dirs=inc_dirs,
                             cfgargs=dict(origin=Sym('o0', 0, 0x1000), consts={k: c02.SYMS[k] for k in syms}),
                             props=['C17'], binary=True, start=Sym('o0', 0, 0x1000), width=40, expect=['ok']))
+    # mute depth across includes (depth 2 at the include, changes inside and after it)
+    M = lambda k: ('data', '.byte', [('c', k)])  # noqa
+    whole = [M(0x11), ('mute',), ('mute',), M(0x22), M(0x33), ('unmute',), M(0x44), M(0x55), ('unmute',), M(0x66), ('mute',), M(0x77),
+             ('unmute',), M(0x88)]
+    for name, cut in (('include-inner', (4, 8)), ('include-from-second-mute', (2, 7)), ('include-tail', (9, 12))):
+        a, b = cut
+        from . import refasm as _r
+        lines = _r.render_file(whole).splitlines()
+        files = {'main.asm': '\n'.join(lines[:a] + ['#include "inc.asm"'] + lines[b:]) + '\n', 'inc.asm': '\n'.join(lines[a:b]) + '\n'}
+        S.append(SplitShape(f'mute-depth:{name}', prog={'main.asm': whole}, files=files,
+                            cfgargs=dict(origin=Sym('o0', 0, 0x1000), consts={}), props=['C17'], binary=True,
+                            start=Sym('o0', 0, 0x1000), width=40, expect=['ok']))
     # scopes and zones across includes: the include-related arrangements of the C06 / C05 families, judged under C17
     for name, files in c06.catalogue().items():
         if len(files) > 1:
